@@ -10,6 +10,7 @@ import (
 	"os"
 	"path/filepath"
 	"sync"
+	"time"
 
 	"github.com/andres-erbsen/clock"
 	"github.com/uber-go/tally"
@@ -103,46 +104,70 @@ func (b *c33backend) Close() error { return nil }
 
 // ---- scripted remote cluster of one origin
 
+// c33req is what the harness knows about ONE replicate request that reached a real origin; it
+// travels in the request context, which the handler hands to remote.UploadBlob.
+type c33req struct {
+	ns       string
+	d        core.Digest
+	blob     []byte
+	mode     int           // 0 upload ok, 1 upload fails
+	release  chan struct{} // non-nil: the upload parks until this is closed
+	uploaded bool          // a correct upload of this request was accepted by the remote cluster
+	wrong    bool
+}
+
+type c33reqKey struct{}
+
 type c33remote struct {
 	blobclient.ClusterClient // nil: any other method panics
 	p                        *c33provider
 }
 
 type c33provider struct {
-	mu       sync.Mutex
-	mode     int // 0 upload ok, 1 upload fails, 2 no provider
-	wantDNS  string
-	wantNS   string
-	wantD    core.Digest
-	wantBlob []byte
-	uploaded bool // a correct, accepted upload happened since the last arm()
-	wrong    bool // an upload / provide with the wrong remote, namespace, digest, size or bytes
+	mu         sync.Mutex
+	noProvider bool
+	wantDNS    string
+	wrongDNS   bool
+	parked     chan *c33req // non-nil (entry 3): every upload reports here and parks
 }
 
 func (p *c33provider) Provide(dns string) (blobclient.ClusterClient, error) {
 	p.mu.Lock()
 	defer p.mu.Unlock()
 	if dns != p.wantDNS {
-		p.wrong = true
+		p.wrongDNS = true
 	}
-	if p.mode == 2 {
+	if p.noProvider {
 		return nil, errors.New("c33: cannot resolve remote cluster")
 	}
 	return &c33remote{p: p}, nil
 }
 
 func (r *c33remote) UploadBlob(ctx context.Context, ns string, d core.Digest, blob io.ReadSeeker, size uint64) error {
-	p := r.p
-	got, err := io.ReadAll(blob)
-	p.mu.Lock()
-	defer p.mu.Unlock()
-	if err != nil || ns != p.wantNS || d != p.wantD || size != uint64(len(p.wantBlob)) || !bytes.Equal(got, p.wantBlob) {
-		p.wrong = true
+	st, _ := ctx.Value(c33reqKey{}).(*c33req)
+	if st == nil {
+		r.p.mu.Lock()
+		r.p.wrongDNS = true // an upload that belongs to no request
+		r.p.mu.Unlock()
+		return errors.New("c33: upload outside a request")
 	}
-	if p.mode == 1 {
+	got, err := io.ReadAll(blob)
+	r.p.mu.Lock()
+	parked := r.p.parked
+	if err != nil || ns != st.ns || d != st.d || size != uint64(len(st.blob)) || !bytes.Equal(got, st.blob) {
+		st.wrong = true
+	}
+	r.p.mu.Unlock()
+	if parked != nil && st.release != nil {
+		parked <- st // the transfer is in flight ...
+		<-st.release // ... until the harness lets it end
+	}
+	r.p.mu.Lock()
+	defer r.p.mu.Unlock()
+	if st.mode == 1 {
 		return errors.New("c33: remote cluster refused the blob")
 	}
-	p.uploaded = !p.wrong
+	st.uploaded = !st.wrong
 	return nil
 }
 
@@ -154,6 +179,7 @@ type c33blobsrv struct {
 	be       *c33backend
 	prov     *c33provider
 	dir      string
+	mu       sync.Mutex
 	started  map[string]bool // digests for which a fetch from the backend is in flight
 	releases []chan struct{}
 }
@@ -204,7 +230,9 @@ func (b *c33blobsrv) endCase() {
 	close(b.be.release)
 	b.be.release = make(chan struct{})
 	b.be.mu.Unlock()
+	b.mu.Lock()
 	b.started = map[string]bool{}
+	b.mu.Unlock()
 }
 
 type c33statusWriter struct {
@@ -263,34 +291,43 @@ func (b *c33blobsrv) serve(w http.ResponseWriter, q *http.Request, rec *c33rec, 
 		b.be.stat = h.refresh
 	}
 	b.be.mu.Unlock()
+	b.mu.Lock()
 	if h.cache == 1 && h.refresh == 1 && !b.started[d.Hex()] {
 		panic("c33: generator asked for a pending fetch that was never started")
 	}
 	if h.cache == 1 && h.refresh <= 1 {
 		b.started[d.Hex()] = true
 	}
+	b.mu.Unlock()
 	// remote cluster
+	st := &c33req{ns: tag, d: d, blob: content, mode: h.upload}
+	if h.upload == 2 {
+		st.mode = 0
+	}
 	b.prov.mu.Lock()
-	b.prov.mode = h.upload
-	b.prov.wantDNS, b.prov.wantNS, b.prov.wantD, b.prov.wantBlob = remote, tag, d, content
-	b.prov.uploaded, b.prov.wrong = false, false
+	b.prov.noProvider = h.upload == 2
+	b.prov.wantDNS = remote
+	b.prov.wrongDNS = false
+	if b.prov.parked != nil {
+		st.release = make(chan struct{})
+	}
 	b.prov.mu.Unlock()
 
 	sw := &c33statusWriter{ResponseWriter: w}
-	b.h.ServeHTTP(sw, q)
+	b.h.ServeHTTP(sw, q.WithContext(context.WithValue(q.Context(), c33reqKey{}, st)))
 	if sw.code == 0 {
 		sw.code = 200 // net/http writes 200 when the handler returns without writing
 	}
 	record(c33resp{code: sw.code})
 
 	b.prov.mu.Lock()
-	uploaded, wrong := b.prov.uploaded, b.prov.wrong
+	uploaded, wrong := st.uploaded, st.wrong || b.prov.wrongDNS
 	b.prov.mu.Unlock()
+	rec.mu.Lock()
+	rec.ups = append(rec.ups, fmt.Sprintf("(%d, %s)", sw.code, hlib.B(uploaded)))
+	rec.mu.Unlock()
 	if wrong {
 		rec.badLocked(11) // the origin talked to the wrong cluster or sent the wrong blob
-	}
-	if sw.code == 200 && !uploaded {
-		rec.badLocked(10) // 200 although the remote cluster did not accept the blob
 	}
 }
 
@@ -325,6 +362,7 @@ func c33addServerCases(ctx *hlib.Ctx, r *hlib.Rng, add func(c c33case)) {
 	e("fetch-then-not-found", []c33dep{one(hA(0), hA(2)), ok(2)}, rc(200))
 	e("all-fail", []c33dep{ok(2), {id: 1, resolve: true, origins: []c33origin{c33srvOrigin(hP(1)), c33srvOrigin(hA(4)), c33srvOrigin(hP(2))}}, ok(3)}, rc(200))
 	e("putfails", []c33dep{ok(1)}, rc(500))
+	c33addOverlapCases(add)
 	n := ctx.N / 6
 	if ctx.Tier == "thorough" {
 		n = ctx.N / 8
@@ -370,5 +408,154 @@ func c33addServerCases(ctx *hlib.Ctx, r *hlib.Rng, add func(c c33case)) {
 			c.deps = append(c.deps, de)
 		}
 		add(c)
+	}
+}
+
+// ---- entry 3: two executions overlap on one real origin.
+//
+// Two build-index replicas run a tag replication task for the same dependency and the same remote
+// cluster against the same origin.  Every upload to the remote cluster parks at a gate.  The
+// schedule is a sequence of rendez-vous, never a delay:
+//   1. Exec A starts; wait until its upload is parked.
+//   2. Exec B starts; wait until EITHER its own upload is parked OR it has returned.
+//   3. release the parked uploads in the scripted order with their scripted outcomes and wait
+//      for both executions.
+// Each execution is then an ordinary case (environment = what ITS OWN upload is scripted to do),
+// and every request carries (status answered, upload accepted during this request).
+
+type c33overlap struct {
+	b      *c33case
+	bFirst bool // release B's upload before A's
+}
+
+func c33runOverlap(a *c33http, c *c33case, idx int) c33out {
+	b := a.peer
+	tagA := fmt.Sprintf("verif/c33 img:%d", idx)
+	tagB := fmt.Sprintf("verif/c33 other:%d", idx)
+	remote := fmt.Sprintf("remote-origin-%d.example:8080", idx)
+	a.rec.reset(c, idx, tagA, remote)
+	b.rec.reset(c.ov.b, idx, tagB, remote)
+	parked := make(chan *c33req, 8)
+	for _, s := range a.real {
+		s.prov.mu.Lock()
+		s.prov.parked = parked
+		s.prov.mu.Unlock()
+	}
+	hosts := append(a.hosts(), c33addr(b.tagSrv), c33addr(b.cluSrv))
+	before := c33tr.count(hosts)
+	type fin struct{ err error }
+	doneA, doneB := make(chan fin, 1), make(chan fin, 1)
+	var held []*c33req
+	incon := false
+	limit := time.After(120 * time.Second)
+	wait := func(done chan fin, res **fin) bool { // true: an upload parked; false: the execution returned
+		select {
+		case st := <-parked:
+			held = append(held, st)
+			return true
+		case f := <-done:
+			*res = &f
+			return false
+		case <-limit:
+			incon = true
+			return false
+		}
+	}
+	var fa, fb *fin
+	go func() { doneA <- fin{a.exec.Exec(c33task(c, idx, tagA, c33addr(a.tagSrv)))} }()
+	wait(doneA, &fa)
+	note := "second execution: its own upload parked"
+	go func() { doneB <- fin{b.exec.Exec(c33task(c.ov.b, idx, tagB, c33addr(b.tagSrv)))} }()
+	if !incon && !wait(doneB, &fb) && fb != nil {
+		note = "second execution returned while the first upload was still in flight"
+	}
+	b.rec.mu.Lock()
+	note += fmt.Sprintf("; its trace at that moment: %v", b.rec.evs)
+	b.rec.mu.Unlock()
+	// release in the scripted order
+	if c.ov.bFirst {
+		for i, j := 0, len(held)-1; i < j; i, j = i+1, j-1 {
+			held[i], held[j] = held[j], held[i]
+		}
+	}
+	for _, st := range held {
+		close(st.release)
+		// wait for the execution that owns this upload, or for a further upload to park (next origin)
+		for {
+			own, res := doneA, &fa
+			if st.ns == tagB {
+				own, res = doneB, &fb
+			}
+			if *res != nil || incon {
+				break
+			}
+			if wait(own, res) {
+				close(held[len(held)-1].release)
+				continue
+			}
+			break
+		}
+	}
+	for _, p := range []struct {
+		d chan fin
+		r **fin
+	}{{doneA, &fa}, {doneB, &fb}} {
+		for *p.r == nil && !incon {
+			if wait(p.d, p.r) {
+				close(held[len(held)-1].release)
+			}
+		}
+	}
+	for _, s := range a.real {
+		s.prov.mu.Lock()
+		s.prov.parked = nil
+		s.prov.mu.Unlock()
+		s.endCase()
+	}
+	if incon {
+		// let whatever is parked go so that the abandoned environment can be closed
+		for {
+			select {
+			case st := <-parked:
+				close(st.release)
+				continue
+			default:
+			}
+			break
+		}
+		return c33out{incon: true}
+	}
+	lost := c33tr.count(hosts) - before
+	mk := func(r *c33rec, f *fin) c33out {
+		r.mu.Lock()
+		defer r.mu.Unlock()
+		return c33out{ok: f.err == nil, evs: r.evs, hist: r.hist, nrepl: r.nrepl, ups: r.ups, note: note,
+			incon: lost != a.rec.nets+b.rec.nets}
+	}
+	ob := mk(b.rec, fb)
+	oa := mk(a.rec, fa)
+	oa.other = &ob
+	return oa
+}
+
+func c33addOverlapCases(add func(c c33case)) {
+	for _, ua := range []int{0, 1} {
+		for _, ub := range []int{0, 1} {
+			for _, bFirst := range []bool{false, true} {
+				for _, two := range []bool{false, true} {
+					mk := func(u int, who string) *c33case {
+						de := c33dep{id: 1, resolve: true, origins: []c33origin{c33srvOrigin(hP(u))}}
+						if two {
+							de.origins = append(de.origins, c33srvOrigin(hP(0)))
+						}
+						return &c33case{kind: fmt.Sprintf("overlap-%s-first%d-second%d", who, ua, ub), entry: 3,
+							has: rc(404), origin: rc(200), deps: []c33dep{de}, put: rc(200)}
+					}
+					ca := mk(ua, "first")
+					ca.ov = &c33overlap{b: mk(ub, "second"), bFirst: bFirst}
+					add(*ca)
+				}
+			}
+		}
 	}
 }
